@@ -36,7 +36,7 @@ class Scenario:
     clock_mode: str = "strict"
     init_snaps: int = 2
     max_attempts: int = 50
-    fix_stamp: bool = False
+    fix_stamp: bool = True
     fix_etag: bool = False
     fix_gc: bool = False
     grace: int = 0
@@ -347,41 +347,154 @@ L1_INVARIANTS = ["TypeOK", "Serializable", "LinearChain", "AckedOnce", "NoDouble
 
 @dataclass
 class TraceVerdict:
-    accepted: List[bool]
-    reached: List[int]
-    violated: List[str]
+    accepted: List[bool]          # consumed entirely with every invariant holding in every state
+    reached: List[int]            # index of the first event that could not be consumed (len+1 = all consumed)
+    violated: List[Optional[Tuple[int, str]]]   # per trace: (event position, invariant) of the first violation
     res: Any
     lengths: List[int]
 
 
-def validate(scn: Scenario, traces: List[Dict[str, Any]], invariants: Sequence[str] = L1_INVARIANTS,
-             timeout_s: int = 900, keep: bool = False) -> TraceVerdict:
-    """Validate a batch of traces of one scenario in one TLC run."""
+def _register(stdout: str, tag: str) -> Any:
+    i = stdout.find(f'"{tag}"')
+    if i < 0:
+        raise MachineryError(f"TLC did not print the {tag} register:\n{stdout[-2000:]}")
+    j = stdout.rfind("<<", 0, i)
+    vals = tlc.split_top_level(stdout[j:])
+    return tlc.plain(tlc.parse_tla(vals[0]))[1]
+
+
+def validate(scn: Scenario, traces: List[Dict[str, Any]], timeout_s: int = 900, keep: bool = False) -> TraceVerdict:
+    """Validate a batch of traces of one scenario in one TLC run (per-trace verdicts)."""
     wd = tlc.workdir_with_specs({"TraceScn.tla": wrapper_module(scn)})
     tf = os.path.join(wd, "traces.json")
     with open(tf, "w") as f:
         json.dump({"traces": [{"init": t["init"], "events": t["events"]} for t in traces]}, f)
-    cfg = tlc.make_cfg(spec="TraceSpec", constants=scn_constants(scn), invariants=list(invariants),
-                       constraints=["Progress"], postcondition="AllAccepted", check_deadlock=False)
+    cfg = tlc.make_cfg(spec="TraceSpec", constants=scn_constants(scn), constraints=["Progress"],
+                       postcondition="Verdicts", check_deadlock=False)
     res = tlc.run_tlc("TraceScn", cfg, wd=wd, workers=1, timeout_s=timeout_s, env={"TRACE_FILE": tf},
                       label=f"Trace_L1[{scn.name}] x{len(traces)}", keep_wd=keep)
-    reached = [0] * len(traces)
-    import re
-
-    i = res.stdout.find('"REACHED"')
-    if i >= 0:
-        j = res.stdout.rfind("<<", 0, i)
-        try:
-            vals = tlc.split_top_level(res.stdout[j:])
-            v = tlc.plain(tlc.parse_tla(vals[0]))[1]
-            if isinstance(v, list):
-                reached = [int(x) for x in v]
-            elif isinstance(v, dict):
-                reached = [int(v[k]) for k in sorted(v, key=int)]
-        except Exception as e:  # noqa: BLE001
-            raise MachineryError(f"cannot parse REACHED register: {e}")
+    if res.violated or res.timed_out:
+        raise MachineryError(f"trace validation run failed: {res.violated} timed_out={res.timed_out}\n{res.error_trace[:3000]}")
+    reached = [int(x) for x in _register(res.stdout, "REACHED")]
+    viol_raw = _register(res.stdout, "VIOLATED")
+    violated: List[Optional[Tuple[int, str]]] = [None if int(v[0]) == 0 else (int(v[0]), str(v[1])) for v in viol_raw]
     lengths = [len(t["events"]) for t in traces]
-    accepted = [reached[i] == lengths[i] + 1 for i in range(len(traces))]
+    accepted = [reached[i] == lengths[i] + 1 and violated[i] is None for i in range(len(traces))]
     if not keep:
         shutil.rmtree(wd, ignore_errors=True)
-    return TraceVerdict(accepted, reached, list(res.violated), res, lengths)
+    return TraceVerdict(accepted, reached, violated, res, lengths)
+
+
+# ------------------------------------------------------------------------------------------------
+# schedule exploration
+# ------------------------------------------------------------------------------------------------
+
+def solo_steps(scn: Scenario) -> Dict[str, int]:
+    """Number of gates each actor passes when the actors run one after the other."""
+    root = scratch_dir("l1")
+    ex = Execution(scn, root)
+    try:
+        ex.setup()
+        ex.run(ListPolicy([]))
+        return {n: a.steps for n, a in ex.env.sched.actors.items()}
+    finally:
+        ex.close()
+
+
+def single_pause_schedules(scn: Scenario, steps: Dict[str, int], stride: int = 1) -> List[List[Any]]:
+    """p runs i gates and is paused there; every other actor then runs to completion (or until it
+    blocks) in every order of preference; then p resumes.  Covers 'a whole commit lands while p is
+    paused at point i' for every i - the stale-base / lost-update family."""
+    names = [a.name for a in scn.actors]
+    out: List[List[Any]] = []
+    for p in names:
+        others = [n for n in names if n != p]
+        orders = [others] if len(others) < 2 else [others, list(reversed(others))]
+        for i in range(0, steps.get(p, 0) + 1, stride):
+            for order in orders:
+                sched: List[Any] = [p] * i
+                for q in order:
+                    sched += [q] * 400
+                sched += [p] * 400
+                out.append(sched)
+    return out
+
+
+def double_pause_schedules(scn: Scenario, steps: Dict[str, int], r: Any, n: int) -> List[List[Any]]:
+    """p runs i gates, q runs j gates, p runs to completion, q finishes (seeded sample of (i, j))."""
+    names = [a.name for a in scn.actors]
+    out = []
+    for _ in range(n):
+        p, q = r.sample(names, 2) if len(names) >= 2 else (names[0], names[0])
+        i = r.randint(0, steps.get(p, 1))
+        j = r.randint(0, steps.get(q, 1))
+        rest = [x for x in names if x not in (p, q)]
+        sched: List[Any] = [p] * i + [q] * j
+        if rest and r.random() < 0.5:
+            sched += [rest[0]] * r.randint(0, steps.get(rest[0], 1))
+        sched += [p] * 400 + [q] * 400
+        out.append(sched)
+    return out
+
+
+def _worker_run(args: Tuple[Scenario, Any, Any]) -> Dict[str, Any]:
+    scn, kind, payload = args
+    from .common import rng as _rng
+
+    if kind == "list":
+        pol: Policy = ListPolicy(payload)
+    else:
+        seed, switch_p, env_p = payload
+        pol = RandomPolicy(_rng(seed, scn.name), switch_p=switch_p, env_p=env_p)
+    t = execute(scn, pol)
+    t["schedule"] = {"kind": kind, "payload": _compact(payload) if kind == "list" else payload}
+    return t
+
+
+def _compact(sched: List[Any]) -> List[Any]:
+    """Run-length encode a schedule for replay files."""
+    out: List[Any] = []
+    for d in sched:
+        if out and isinstance(d, str) and isinstance(out[-1], list) and out[-1][0] == d:
+            out[-1][1] += 1
+        elif isinstance(d, str):
+            out.append([d, 1])
+        else:
+            out.append(d)
+    return out
+
+
+def expand(sched: List[Any]) -> List[Any]:
+    out: List[Any] = []
+    for d in sched:
+        if isinstance(d, list) and len(d) == 2 and isinstance(d[0], str) and isinstance(d[1], int):
+            out += [d[0]] * d[1]
+        else:
+            out.append(tuple(d) if isinstance(d, list) else d)
+    return out
+
+
+_pool: Any = None
+
+
+def pool(n: int = 12) -> Any:
+    global _pool
+    if _pool is None:
+        import multiprocessing as mp
+
+        _pool = mp.get_context("spawn").Pool(n)
+    return _pool
+
+
+def close_pool() -> None:
+    global _pool
+    if _pool is not None:
+        _pool.terminate()
+        _pool = None
+
+
+def run_many(scn: Scenario, jobs: List[Tuple[str, Any]], parallel: bool = True) -> List[Dict[str, Any]]:
+    args = [(scn, k, p) for k, p in jobs]
+    if parallel and len(jobs) > 24:
+        return pool().map(_worker_run, args, chunksize=max(1, len(args) // 48))
+    return [_worker_run(a) for a in args]
